@@ -193,6 +193,12 @@ func (f *winFold) feed(s Sample) *Sample {
 	if f.Ambiguous || s.RTT < f.thr {
 		return nil
 	}
+	if s.RTT == 0 && !s.Drop {
+		// a literal 0 ns success sample that passes the threshold (threshold <= 0): 0 is the sample window's "no minimum yet"
+		// sentinel, what follows is not specified (DESIGN 6, domain decisions); stop comparing
+		f.Ambiguous = true
+		return nil
+	}
 	if s.Inf > f.maxInf {
 		f.maxInf = s.Inf
 	}
